@@ -38,6 +38,12 @@ def cases(ctx):
             N2 = gen.random_nfa(rng, 4, ['a', 'b'], e2, prefix='p', live=True)
         if set(N1['Q']) & set(N2['Q']):
             continue
+        if i % 9 == 4:      # immutable containers (frozenset) in the fields of an operand
+            k = rng.choice([0, 1, 2])
+            if k in (0, 2):
+                N1 = dict(N1, frozen='all')
+            if k in (1, 2):
+                N2 = dict(N2, frozen=rng.choice(['all', 'delta']))
         if not thorough or ctx.mine(i):
             yield {'N1': N1, 'N2': N2, 'warm': rng.randint(0, 6), 'explicit': rng.choice([None, None, 0, 1, 5])}
 
